@@ -3,7 +3,7 @@
 """Base classes for the PrimAITE Simulator."""
 import warnings
 from abc import abstractmethod
-from typing import Callable, Dict, Iterable, List, Literal, Optional, Tuple, Union
+from typing import Callable, Dict, Hashable, Iterable, List, Literal, Optional, Tuple, Union
 from uuid import uuid4
 
 from prettytable import PrettyTable
@@ -125,7 +125,7 @@ class RequestManager(BaseModel):
         request_key = request[0]
         request_options = request[1:]
 
-        if request_key not in self.request_types:
+        if not isinstance(request_key, Hashable) or request_key not in self.request_types:
             msg = (
                 f"Request {request} could not be processed because {request_key} is not a valid request name",
                 "within this RequestManager",
